@@ -279,24 +279,10 @@ def check(ctx):
     ckf = [n for n, c in gfd.nodes_calling("cancel_key_tasks")]
     ctx.ob("R5", "GeckoAsyncFacade.disconnect::cancel-tasks", always(gfd, ckf), "facade.disconnect does not cancel its tasks", fd.loc)
     gr = cfg_of(reset)
-    for attr, what in (("_facade", "facade"), ("_spa", "spa")):
-        dn = [n for n, c in gr.nodes_calling("disconnect") if receiver(c) == f"self.{attr}"]
-        ok = bool(dn)
-        extra = []
-        for n in dn:
-            facts = gr.guard_atoms(n)
-            ok = ok and (f"self.{attr} is None", False) in facts
-            # ... and nothing else: any further condition (is_connected, a state test) leaves a path on which the object
-            # exists, is not disconnected, and is then dropped with its endpoint open and its tasks running
-            extra += sorted(t for t, p in facts if t != f"self.{attr} is None")
-        ok = ok and not extra
-        # called whenever the object exists: the only guard is the None test
-        for n in dn:
-            gs = gr.guards(n)
-            ok = ok and len(gs) == 1
-        ctx.ob("R5", f"GeckoAsyncSpaMan.async_reset::disconnects-{what}", ok,
-               f"async_reset does not disconnect the {what} whenever one exists" + (f" (also requires {extra})" if extra else ""), reset.loc)
-
+    # whatever exists is disconnected, whatever state the manager is in (manager model of C08: async_reset interpreted from
+    # six states x facade / spa present, spa connected or still in its handshake)
+    from .c08 import reset_by_interpretation
+    reset_by_interpretation(ctx.borrowed("R5", "C08", key_contains="::disconnects-what-exists"), repo, "I6")
     reset_survives_self_cancel(ctx, repo, "R7")
 
     # ---- R8 nothing of a connection is shared with the next one through a default argument ------------------------
